@@ -568,8 +568,7 @@ let exec (s : t) (verbose : bool) (f : string array) (obs : string option) : str
     (match obs with
      | Some o when String.length o >= 4 && String.sub o 0 4 = "skip" -> "skip"
      | _ ->
-       let b = get_batch s in
-       s.batch <- Some { b with b_staged = []; b_cached = n_of_int 0; b_committed = true }; "err io")
+       s.batch <- Some (batch_refuse (get_batch s)); "err io")
   | "commit" ->
     let (((d, b), e), evs) = batch_commit (get_db s) (get_batch s) in
     s.db <- Some d; s.batch <- Some b;
